@@ -2,6 +2,8 @@
 mathematical predicate it is named for."""
 import ast
 
+from ..callgraph import own_walk
+
 from ..model import AnalysisError
 from ..scope import FuncInfo
 from ..astutil import body_nodoc, src
@@ -463,10 +465,16 @@ def check_formula(run, key, reference, what, rule='R4'):
     f1 = _atoms_and_eval(e, a1)
     f2 = _atoms_and_eval(ref, a2)
     if a1 != a2:
-        run.error('%s: %s: the predicate is written over other atomic tests than the reference (%s)' % (
-            rule, key, '; '.join(sorted(a1 ^ a2))[:200]))
-        return
-    names = sorted(a1)
+        extra = a1 - a2
+        # an extra test of the ELEMENT TYPE of the argument (dtype) is independent of every shape / container test of the definition: if the
+        # answer depends on it, the predicate differs from the definition for some array the definition accepts or rejects
+        if a2 <= a1 and extra and all('.dtype' in k for k in extra):
+            pass
+        else:
+            run.error('%s: %s: the predicate is written over other atomic tests than the reference (%s)' % (
+                rule, key, '; '.join(sorted(a1 ^ a2))[:200]))
+            return
+    names = sorted(a1 | a2)
     if len(names) > 16:
         run.error('%s: %s: too many atomic tests (%d)' % (rule, key, len(names)))
         return
@@ -488,5 +496,14 @@ ISVECTOR_REF = (
 
 
 def check_isvector(run, rule='R4'):
+    # a shape test on the SQUEEZED array: squeeze() removes every axis of length 1, also the only axis of a one-element vector
+    # ((1,), (1,1) -> ()), so np.array([x]) is no longer a vector while [x] is
+    f_ = run.prog.func('base/argcheck:isvector')
+    for y in own_walk(f_.node):
+        if isinstance(y, ast.Attribute) and y.attr in ('shape', 'ndim') and isinstance(y.value, ast.Call) and isinstance(y.value.func, ast.Attribute) \
+                and y.value.func.attr == 'squeeze' and not y.value.args:
+            run.violation(rule, f_.key, 'definition', 'the shape test is made on the squeezed array (%s): squeeze() also removes the only axis of a one-element vector, '
+                          'so a 1-vector given as np.array([x]) or np.array([[x]]) is not a vector while the list [x] is' % src(y, 40), f=f_, node=y)
+            return
     check_formula(run, 'base/argcheck:isvector', ISVECTOR_REF,
                   'a vector is a list/tuple of scalars of the asked length, an array of shape (n,), (1,n) or (n,1) with n > 0 (n = dim when given), or a scalar when dim is None or 1', rule=rule)
